@@ -282,9 +282,10 @@ classes:
 		struct grpatm_payload_s f = needles->flesh[i];
 		const char *fmt = f.fmt;
 		const char *ndl;
+		const unsigned int padded = f.flags & GRPATM_PADDED;
 
 		/* look out for char classes*/
-		switch (f.flags) {
+		switch (f.flags & ~GRPATM_PADDED) {
 			/* this isn't the bestest of approaches as it involves
 			 * details about the contents behind the specifiers */
 			static const char a_needle[] = "FMSTWfmstw";
@@ -337,7 +338,11 @@ classes:
 					goto found;
 				}
 				for (q = p;
-				     q < zp && *q >= '0' && *q <= '9'; q++) {
+				     q < zp && ((*q >= '0' && *q <= '9') ||
+						(padded && *q == ' ' &&
+						 q + 1 < zp &&
+						 q[1] >= '0' && q[1] <= '9'));
+				     q++) {
 					if ((--n <= 0) &&
 					    !dt_unk_p(d = dt_strpdt(p, fmt, ep))) {
 						goto found;
@@ -668,11 +673,16 @@ calc_grep_atom(const char *fmt)
 		default:
 			break;
 		}
+		if (spec.pad == DT_SPPAD_SPC) {
+			/* pad blanks may sit between the digits */
+			res.pl.flags |= GRPATM_PADDED;
+		}
 	}
 
 post_snarf:
 	if (res.needle == 0 && (res.pl.off_min || res.pl.off_max)) {
-		if ((res.pl.flags & ~(GRPATM_DIGITS | GRPATM_ORDINALS)) == 0) {
+		if ((res.pl.flags & ~(GRPATM_DIGITS | GRPATM_ORDINALS |
+				      GRPATM_PADDED)) == 0) {
 			/* ah, only digits, that's good */
 			int8_t tmp = (int8_t)-res.pl.off_min;
 
